@@ -46,6 +46,11 @@ func (b *TCPBackends) Acquire(servicename string, port int) *TCPBackend {
 	return backend
 }
 
+// FindTCPBackend ...
+func (b *TCPBackends) FindTCPBackend(port int) *TCPBackend {
+	return b.items[port]
+}
+
 // BuildSortedItems ...
 func (b *TCPBackends) BuildSortedItems() []*TCPBackend {
 	items := make([]*TCPBackend, len(b.items))
